@@ -249,7 +249,18 @@ def mon_C04(rng, budget, tier):
         keys = _keys_or_default(c)
         infl = _inflated(nums, eff_tau(st, tau))
         srel = _tm_tie_sigma_rel(kind, st, infl, keys)
-        base = rate_nums(kind, st, nums, ranks=("L", [_num_val(k) for k in keys]), tau=tau, lim=lim)
+        # the outcome is passed the way the case has it: as ranks or as scores, with the case's own values
+        if scores != OMIT and scores[0] == "L" and scores[1]:
+            sel, ovals = "scores", list(scores[1])
+        elif ranks != OMIT and ranks[0] == "L" and ranks[1]:
+            sel, ovals = "ranks", list(ranks[1])
+        else:
+            sel, ovals = "ranks", [_num_val(k) for k in keys]
+        if i % 6 == 0:      # huge integer scores (exactly comparable, not representable as distinct doubles)
+            dense = {v: r for r, v in enumerate(sorted(set(keys)))}
+            base_int = rng.choice([2 ** 53, 10 ** 18, 10 ** 400])
+            sel, ovals = "scores", [("I", -(base_int + dense[k])) for k in keys]
+        base = rate_nums(kind, st, nums, tau=tau, lim=lim, **{sel: ("L", ovals)})
         perms = list(itertools.permutations(range(n))) if (n <= 5 and tier == "thorough") else None
         if perms is None:
             perms = []
@@ -271,7 +282,8 @@ def mon_C04(rng, budget, tier):
             case = {"kind": kind, "st": st, "nums": nums, "keys": keys, "perm": perm, "players": pp, "tau": tau,
                     "lim": lim}
             mon.case(case, perm != tuple(range(n)) or any(x != sorted(x) for x in pp))
-            got = rate_nums(kind, st, pnums, ranks=("L", [_num_val(k) for k in pkeys]), tau=tau, lim=lim)
+            case["outcome_as"] = sel
+            got = rate_nums(kind, st, pnums, tau=tau, lim=lim, **{sel: ("L", [ovals[o] for o in perm])})
             for new, (o, pj) in enumerate(zip(perm, pp)):
                 for jj, j in enumerate(pj):
                     a, b = base[o][j], got[new][jj]
@@ -598,10 +610,14 @@ def mon_C08(rng, budget, tier):
     while mon.evaluations < budget and not mon.full:
         kind = KINDS[i % 5]
         i += 1
+        api.pool(i % 2 == 0)
         k = 10 ** rng.choice([-3, -2, -1, 0, 0, 1, 2, 3]) if rng.random() < 0.7 else 10 ** rng.uniform(-3, 3)
         beta = gen.BETA0 * k
         st = {"mu": 25.0 * k, "sigma": 25.0 / 3 * k, "beta": beta, "kappa": rng.choice([1e-4, 1e-2, 1e-8, gen.logu(rng, 1e-8, 1e-2)]),
               "tau": rng.choice([0.0, beta / 50, beta, 1e-6 * beta]), "gamma": rng.choice(gen.GAMMAS), "limit": rng.random() < 0.3}
+        ctor = rng.choice([None, None, None, "setattr", "reassign", "reassign", "subcls"])
+        if ctor:
+            st["ctor"] = ctor
         n = rng.randint(2, 8)
         corner = rng.random() < 0.5
         shape = [rng.choice([1, 16, 16, rng.randint(1, 16)]) if corner else rng.randint(1, 16) for _ in range(n)]
@@ -655,6 +671,7 @@ def mon_C08(rng, budget, tier):
             continue
         if not _finite_all(out):
             mon.fail("non-finite number returned", case, repr(out)[:300])
+    api.pool(False)
     return mon
 
 
@@ -675,6 +692,7 @@ def mon_C09(rng, budget, tier):
     while mon.evaluations < budget and not mon.full:
         kind = KINDS[i % 5]
         i += 1
+        api.pool(i % 2 == 0)
         st, nums = _predict_game(rng)
         n = len(nums)
         share = rng.random() < 0.3
@@ -777,6 +795,7 @@ def mon_C09(rng, budget, tier):
         p = call_predict("pwin", kind, st, nums, share=rng.random() < 0.5)
         if p != [0.5, 0.5]:
             mon.fail("two identical teams get exactly one half", case, repr(p))
+    api.pool(False)
     return mon
 
 
@@ -1166,8 +1185,17 @@ def threads_probe(mon, rng, kind, st, mk_thunk_and_check, nthreads=2, nsched=4):
 
 
 def _do_call(m, kind, call):
+    try:
+        return _do_call_raw(m, kind, call)
+    except Exception as e:  # noqa: BLE001
+        raise api.ImplRaised({"kind": kind, "call": call}, e) from e
+
+
+def _do_call_raw(m, kind, call):
     op = call["op"]
     objs = to_python(call["teams"])
+    for j_, i_ in call.get("alias", []):
+        objs[j_] = objs[i_]
     if op == "rate":
         kw = {}
         for nm, key in (("ranks", "ranks"), ("tau", "tau"), ("limit_sigma", "lim")):
@@ -1191,6 +1219,10 @@ def _random_call(rng, kind, st, id_pool=None):
     else:
         ids = [gen.fresh_id() for _ in range(cnt)]
     call = {"op": op, "teams": teams_val(kind, nums, ids=ids)}
+    if op != "rate" and len(nums) >= 3 and rng.random() < 0.15:
+        a_, b_ = rng.sample(range(len(nums)), 2)
+        call["teams"][1][b_] = call["teams"][1][a_]
+        call["alias"] = [(b_, a_)]       # the same list object at two positions
     if op == "rate":
         call["ranks"] = ("L", [("I", r) for r in gen.random_weak_order(rng, len(shape))])
         tau, lim = gen.gen_percall(rng, st)
@@ -1395,6 +1427,7 @@ def mon_C15(rng, budget, tier):
     while mon.evaluations < budget and not mon.full:
         kind = KINDS[i % 5]
         i += 1
+        api.pool(i % 2 == 0)
         c = _valid_rate_case(rng, kind=kind)
         teams, ranks, scores, _, _ = c["args"]
         st = c["st"]
@@ -1432,12 +1465,15 @@ def mon_C15(rng, budget, tier):
             for _ in range(rng.randint(1, 3)):
                 t = rng.choice([("I", 0), ("F", 1e-9 * beta), ("F", 3.0 * beta)])
                 b = rng.choice([("B", True), ("B", False)])
-                bad = rng.random() < 0.4
+                r_ = rng.random()
+                bad = r_ < 0.3
+                boom = 0.3 <= r_ < 0.55      # valid arguments, but numbers far outside the supported range: may raise inside the update
                 rk = ("L", [("S", True)] * len(nums)) if bad else ranks
                 sc = OMIT if bad else scores
-                seq.append({"tau": t, "lim": b, "rejected": bad})
+                nn = [[(1e9 * beta * (1 if ti % 2 else -1), sg) for _, sg in t_] for ti, t_ in enumerate(nums)] if boom else nums
+                seq.append({"tau": t, "lim": b, "rejected": bad, "out_of_range_numbers": boom})
                 try:
-                    call_rate(kind, st, nums, ranks=rk, scores=sc, tau=t, lim=b, model=m)
+                    call_rate(kind, st, nn, ranks=rk, scores=sc, tau=t, lim=b, model=m)
                 except Exception:  # noqa: BLE001
                     pass
             case = {"kind": kind, "st": st, "nums": nums, "ranks": ranks, "scores": scores, "earlier_calls_on_same_model": seq}
@@ -1446,6 +1482,7 @@ def mon_C15(rng, budget, tier):
             if got != a:
                 mon.fail("omitting the options does not use the model's own settings after earlier calls with per-call options",
                          case, "fresh model %s / same model after %s: %s" % (str(a)[:300], seq, str(got)[:300]))
+    api.pool(False)
     return mon
 
 
@@ -1612,6 +1649,61 @@ def mon_C17(rng, budget, tier):
             ref = hp.Wt(x, t)
             if abs(D(got) - ref) > D(20 * t + 1e-13 / t):
                 mon.fail("wt within 20t + 1e-13/t of W~", case, "wt(%r, %r) = %r, W~ = %s, bound %r" % (x, t, got, +ref, 20 * t + 1e-13 / t))
+    # "for every finite x": astronomically large arguments must still give finite values in range (no exception)
+    for x in [s_ * m_ for s_ in (1.0, -1.0) for m_ in (1e3, 1e10, 1e100, 1.3e154, 1.4e154, 1e200, 1e308)]:
+        for t in (1e-8, 1e-5, 1e-2):
+            for fn in ("v", "w", "vt", "wt"):
+                case = {"fn": fn, "x": x, "t": t, "extreme": True}
+                mon.case(case)
+                try:
+                    got = getattr(wc, fn)(x, t)
+                except Exception as ex:  # noqa: BLE001
+                    mon.fail("exception", case, "%s(%r, %r): %s: %s" % (fn, x, t, type(ex).__name__, ex))
+                    continue
+                if not math.isfinite(got):
+                    mon.fail("finite", case, "%s(%r, %r) = %r" % (fn, x, t, got))
+                elif (fn == "v" and got < 0) or (fn in ("w", "wt") and not (0.0 <= got <= 1.0)):
+                    mon.fail("%s in range" % fn, case, "%s(%r, %r) = %r" % (fn, x, t, got))
+    # the four functions called concurrently from several threads (free running, short switch interval): every call
+    # must return what the same call returns alone.  A stress test: it can miss a race, it cannot raise a false alarm.
+    if not mon.full:
+        args = [(fn, rng.choice([3.0, -3.0, 0.5, -0.5, 7.0, -7.0, 0.0, 1e-3]), rng.choice([1e-2, 1e-5, 1e-8, 1e-3]))
+                for fn in ("vt", "wt", "vt", "wt", "v", "w") for _ in range(4)]
+        want = {a: getattr(wc, a[0])(a[1], a[2]) for a in args}
+        bad = []
+        stop = threading.Event()
+        old_si = sys.getswitchinterval()
+
+        def work(k):
+            j = k
+            while not stop.is_set() and not bad:
+                a = args[j % len(args)]
+                j += 3
+                try:
+                    got = getattr(wc, a[0])(a[1], a[2])
+                except Exception as ex:  # noqa: BLE001
+                    bad.append((a, "raised %s" % type(ex).__name__))
+                    return
+                if got != want[a]:
+                    bad.append((a, got))
+        try:
+            sys.setswitchinterval(1e-6)
+            ths = [threading.Thread(target=work, args=(k,)) for k in range(4)]
+            for th_ in ths:
+                th_.start()
+            stop.wait(1.0 if tier == "quick" else 10.0)
+            stop.set()
+            for th_ in ths:
+                th_.join(10)
+        finally:
+            sys.setswitchinterval(old_si)
+        case = {"clause": "concurrent calls", "threads": 4, "calls": [list(a) for a in args[:6]]}
+        mon.case(case)
+        mon.count("concurrent stress")
+        if bad:
+            a, got = bad[0]
+            mon.fail("concurrent calls return what the same call returns alone", case,
+                     "%s(%r, %r) = %r under concurrency, %r alone" % (a[0], a[1], a[2], got, want[a]))
     return mon
 
 
@@ -1636,11 +1728,18 @@ def mon_C18(rng, budget, tier):
             m1, s1, m2, s2 = (rng.choice(vals) if rng.random() < 0.6 else rng.uniform(-50, 50) for _ in range(4))
         if rng.random() < 0.5:
             m1, s1, m2, s2 = m2, s2, m1, s1
+        if i % 9 == 0:      # finite mu, sigma whose ordinals overflow to -inf / +inf or are astronomically large
+            m1, s1, m2, s2 = (rng.choice([1e308, -1e308, 6e307, -6e307, 1e300, 0.0, 1.0]) for _ in range(4))
         a, b = R(m1, s1), R(m2, s2)
         case = {"kind": kind, "a": (m1, s1), "b": (m2, s2)}
         mon.case(case, True)
+        if i % 4 == 0:      # ordinal with a non-default z is the very first thing asked of the fresh objects
+            z0 = rng.choice([0, 0.0, 1.5, 2.0, -1.0, 1])
+            case["first_call"] = "ordinal(%r)" % (z0,)
+            if a.ordinal(z0) != m1 - z0 * s1 or b.ordinal(z=z0) != m2 - z0 * s2:
+                mon.fail("ordinal(z) = mu - z*sigma", case, "ordinal(%r) = %r, %r" % (z0, a.ordinal(z0), b.ordinal(z0)))
         oa, ob = a.ordinal(), b.ordinal()
-        if oa != m1 - 3 * s1 or a.ordinal(2.0) != m1 - 2.0 * s1 or a.ordinal(z=0) != m1 - 0 * s1:
+        if oa != m1 - 3 * s1 or a.ordinal(2.0) != m1 - 2.0 * s1 or a.ordinal(z=0) != m1 - 0 * s1 or a.ordinal() != oa:
             mon.fail("ordinal(z) = mu - z*sigma", case, "ordinal() = %r" % oa)
         want = {"lt": oa < ob, "le": oa <= ob, "gt": oa > ob, "ge": oa >= ob}
         for nm, f in ops.items():
@@ -1730,6 +1829,24 @@ def mon_C19(rng, budget, tier):
             b = hexnums(rate_nums("BTP", st, nums, ranks=ranks, scores=scores, tau=tau, lim=lim))
             if a != b:
                 mon.fail("BT partial equals BT full on two teams", case, "full %s / partial %s" % (str(a)[:300], str(b)[:300]))
+            if i % 10 == 2:
+                # one rating object entered in two slots of the two-team game (a player on both sides / twice in a team)
+                outs = {}
+                flat_n = sum(shape)
+                src, dst = (rng.sample(range(flat_n), 2) if flat_n > 2 else (0, 1))
+                for k in ("BTF", "BTP"):
+                    objs = to_python(teams_val(k, nums))
+                    flat = [(ti, pj) for ti, t in enumerate(objs) for pj in range(len(t))]
+                    objs[flat[dst][0]][flat[dst][1]] = objs[flat[src][0]][flat[src][1]]
+                    try:
+                        r = make_model(k, st).rate(objs, ranks=[1, 2] if i % 20 == 2 else [2, 1])
+                        outs[k] = [[(hx(p.mu), hx(p.sigma)) for p in t] for t in r]
+                    except Exception as ex:  # noqa: BLE001
+                        outs[k] = "EXC " + type(ex).__name__
+                case2 = dict(case, same_object_at=[flat[src], flat[dst]])
+                mon.case(case2)
+                if outs["BTF"] != outs["BTP"]:
+                    mon.fail("BT partial equals BT full on two teams", case2, "full %s / partial %s" % (str(outs["BTF"])[:300], str(outs["BTP"])[:300]))
         elif which == 3:          # accept/reject with the same class
             shape = rng.choice(suites.BASE_SHAPES[:3])
             per_kind = {}
@@ -1806,7 +1923,7 @@ def mon_C20(rng, budget, tier):
         cp = copy.deepcopy(nested)
         c0 = cp[0][0]
         if not (c0 is not src and c0.mu == src.mu and c0.sigma == src.sigma and c0.name == src.name and c0.id == src.id
-                and type(c0) is type(src) and [len(t) for t in cp] == [2, 1]):
+                and isinstance(c0, RATING[kind]) and [len(t) for t in cp] == [2, 1]):
             mon.fail("deepcopy preserves mu, sigma, name, id in a distinct object", case, "%r %r %r %r" % (c0.mu, c0.sigma, c0.name, c0.id))
         snapshot = (c0.mu, c0.sigma, c0.name, c0.id)
         src.mu, src.sigma, src.name = 123.0, 45.0, "changed"
@@ -1921,6 +2038,7 @@ def mon_C01(rng, budget, tier):
     while mon.evaluations < budget and not mon.full:
         kind = KINDS[i % 5]
         i += 1
+        api.pool(i % 2 == 0)
         c = _valid_rate_case(rng, kind=kind)
         teams, ranks, scores, tau, lim = c["args"]
         if tau[0] == "B":
@@ -1958,6 +2076,7 @@ def mon_C01(rng, budget, tier):
             alg3 = spec.wl_update(kind, st, nums, keys, t_eff, l_eff, tm_part_factor=1.0)
             if _spec_diff(kind, st, infl, keys, got, alg3, srel):
                 mon.count("K1: TMP equals Algorithm 3 only with c_iq doubled")
+    api.pool(False)
     return mon
 
 
